@@ -86,6 +86,9 @@ RestoreOK(saved, v) ==
 MutKinds == {"none", "arch", "param", "act", "hp"}
 ArchAllOrNone(p, v) == \/ \A n \in Evals : v.arch[n] # p.arch[n]
                        \/ \A n \in Evals : v.arch[n] = p.arch[n]
+\* "the same architecture change as the policy": networks that had the same layer configuration (layers, nodes, channels,
+\* kernels, latent width, activation -- acfg is its id) before the mutation have the same one afterwards
+SameChange(p, v) == \A n, m \in Evals : p.acfg[n] = p.acfg[m] => v.acfg[n] = v.acfg[m]
 MutLabelOK(p, v, k, h) ==
   CASE k = "none"  -> v.mut = "None"
     [] k = "param" -> v.mut = "param"
@@ -107,6 +110,7 @@ MutateOK(p, v, k, h) ==
        [] k = "hp"    -> /\ v.arch = p.arch /\ \A n \in Evals : v.w[n] = p.w[n]
                          /\ h \in 1..H /\ \A g \in 1..H : g # h => v.hp[g] = p.hp[g]    \* exactly one hp moves
   /\ MutLabelOK(p, v, k, h)
+  /\ SameChange(p, v)
 
 --------------------------------------------------------------------------------
 (* Actions (the resulting view v is a parameter) *)
